@@ -17,6 +17,7 @@ so the as-read behaviour coming back is reported by the oracle as a violation wi
       unique_names     C13_07  two ONNX names never share a Python name
       nonempty_only    C13_09  constants of shape [0] are not inlined
       paren_neg        C13_11  a negative literal operand of an operator is parenthesized
+      refuse_hazard    C13_12  a Loop whose un-SSA assignments would read an overwritten variable raises a descriptive error
 """
 from __future__ import annotations
 
@@ -74,5 +75,14 @@ def detect():
     v["unique_names"] = "Sub(a_b, a_b)" not in code and not code.startswith("<raised")
     code = _export(_model([N("Constant", [], ["m2"], value=f32(-2.0)), N("Pow", ["m2", "x"], ["p"]), N("Identity", ["p"], ["y"])]), use_operators=True, inline_const=True)
     v["paren_neg"] = "(-2.0) ** x" in code
+    # C13_12: a Loop whose body returns its own inputs at another position is refused with a descriptive error
+    sbody = h.make_graph([N("Identity", ["c"], ["c2"])], "body",
+                         [h.make_tensor_value_info("i", TP.INT64, []), h.make_tensor_value_info("c", TP.BOOL, []),
+                          h.make_tensor_value_info("a", TP.FLOAT, [3]), h.make_tensor_value_info("b", TP.FLOAT, [3])],
+                         [h.make_tensor_value_info("c2", TP.BOOL, []), h.make_tensor_value_info("b", TP.FLOAT, [3]), h.make_tensor_value_info("a", TP.FLOAT, [3])])
+    fp = h.make_function("this", "swap_once", ["x", "y"], ["p", "q"],
+                         [N("Constant", [], ["one"], value_int=1), N("Loop", ["one", "", "x", "y"], ["p", "q"], body=sbody)],
+                         opset_imports=[h.make_opsetid("", 18)])
+    v["refuse_hazard"] = _export(fp) == "<raised RuntimeError>"
     _cache[key] = v
     return v
